@@ -648,8 +648,12 @@ class Escapes:
                     need = idx + 1 if idx >= 0 else -idx
                     got = facts_at(x)
                     ok = False
-                    if got is not None:
-                        ok = _len_at_least(got[0], x.value, need)
+                    if got is not None and isinstance(x.value, ast.Name):
+                        dlit = rd.unique(got[1][0], x.value.id)
+                        if dlit is not None and dlit.kind == "assign" and isinstance(dlit.value, (ast.Tuple, ast.List)) and not any(isinstance(y, ast.Starred) for y in dlit.value.elts) and len(dlit.value.elts) >= need:
+                            ok = True  # a tuple/list built in place with enough elements
+                    if got is not None and not ok:
+                        ok = _len_at_least(got[0], x.value, need) or _len_at_least(got[0], x.value, need, lambda e_, n_=got[1][0]: rd.expand(e_, n_))
                     if not ok:
                         add(x, "IndexError", "index", "no dominating length test")
                     else:
@@ -678,7 +682,7 @@ class Escapes:
                             continue
                     if is_t(v):
                         got = facts_at(x)
-                        if got is not None and _len_exactly(got[0], v, n):
+                        if got is not None and (_len_exactly(got[0], v, n) or _len_exactly(got[0], v, n, lambda e_, n_=got[1][0]: rd.expand(e_, n_))):
                             self.guarded.append((fi, x, "unpacking %d values from a sequence whose length was tested to be %d" % (n, n)))
                             continue
                         add(x, "ValueError", "unpack", "%d targets" % n)
@@ -717,9 +721,11 @@ class Escapes:
         return [s for s in self.sites(fi) if s.handler is None and not (s.kind == "assert" and self._narrowing(fi, s))]
 
 
-def _len_exactly(facts, seq: ast.AST, n: int) -> bool:
-    want = "len(%s)" % q.unparse(seq)
+def _len_exactly(facts, seq: ast.AST, n: int, expand=None) -> bool:
+    want = "len(%s)" % q.unparse(expand(seq) if expand else seq)
     for e, pol, _t in parsed_facts(facts):
+        if expand:
+            e = expand(e)
         eq = equality_fact(e, pol)
         if eq is not None and eq[2]:
             for u, v in ((eq[0], eq[1]), (eq[1], eq[0])):
@@ -732,9 +738,11 @@ def _len_exactly(facts, seq: ast.AST, n: int) -> bool:
     return False
 
 
-def _len_at_least(facts: FrozenSet[Tuple[str, bool]], seq: ast.AST, need: int) -> bool:
-    want = "len(%s)" % q.unparse(seq)
+def _len_at_least(facts: FrozenSet[Tuple[str, bool]], seq: ast.AST, need: int, expand=None) -> bool:
+    want = "len(%s)" % q.unparse(expand(seq) if expand else seq)
     for e, pol, _t in parsed_facts(facts):
+        if expand:
+            e = expand(e)
         eq = equality_fact(e, pol)
         if eq is not None:
             a, b, equal = eq
